@@ -200,9 +200,40 @@ def coq_project_files():
     return [os.path.relpath(p, COQ) for p in coq_sources()]
 
 
+def _generated_sources():
+    return [p for p in coq_sources() if os.sep + "gen" + os.sep in p]
+
+
+def _drop_stale_generated():
+    """A generated .v (W1) is rewritten on every run, possibly by two runs at once (a seeded tree being tried out
+    next to the real one): file times alone cannot tell whether a .vo was compiled from the text now on disk.
+    Each generated .vo therefore carries a side-car with the md5 of the source it was compiled from."""
+    for v in _generated_sources():
+        vo, side = v[:-2] + ".vo", v[:-2] + ".srcmd5"
+        want = hashlib.md5(open(v, "rb").read()).hexdigest()
+        have = open(side).read().strip() if os.path.exists(side) else None
+        if os.path.exists(vo) and have != want:
+            for ext in (".vo", ".vos", ".vok", ".glob"):
+                try:
+                    os.remove(v[:-2] + ext)
+                except OSError:
+                    pass
+
+
+def _stamp_generated(before):
+    for v in _generated_sources():
+        vo, side = v[:-2] + ".vo", v[:-2] + ".srcmd5"
+        now = hashlib.md5(open(v, "rb").read()).hexdigest()
+        if os.path.exists(vo) and before.get(v) == now:      # unchanged while the build ran
+            with open(side, "w") as f:
+                f.write(now)
+
+
 def coq_make(targets=None, timeout=3000):
     """Incremental full (.vo) build of the Coq development.  Returns (ok, log)."""
     with Lock("coqmake"):
+        _drop_stale_generated()
+        before = {v: hashlib.md5(open(v, "rb").read()).hexdigest() for v in _generated_sources()}
         files = coq_project_files()
         proj = "-R theories Catii\n-arg -w -arg -notation-overridden,-deprecated-hint-without-locality,-deprecated-instance-without-locality\n" + "\n".join(files) + "\n"
         changed = write_if_changed(os.path.join(COQ, "_CoqProject"), proj)
@@ -214,6 +245,7 @@ def coq_make(targets=None, timeout=3000):
         tg = " ".join(targets) if targets else ""
         # every single file under its own timeout: a proof that stops terminating must not stall the build
         rc, out = sh("timeout %d make -f Makefile.coq -j%d -k COQC='timeout %d coqc' %s" % (timeout, NPROC, PER_FILE_TIMEOUT, tg), cwd=COQ, timeout=timeout + 30)
+        _stamp_generated(before)
         return rc == 0, out
 
 
